@@ -75,6 +75,9 @@ def run(run, binfo):
                                             c['registered_check'] = {'pol': reg_check}
                                         if from_file:
                                             c['from_file'] = True
+                                        if len(cases) % 3 == 0:
+                                            # the option is read when the decision is taken, not when the enforcer is built
+                                            c['enforce_scope_at_init'] = not es
                                         if rep != 'dict':
                                             c['creds_as'] = rep
                                         cases.append(c)
@@ -106,6 +109,7 @@ def run(run, binfo):
                 m['creds']['system'] = 'all'
             m.pop('creds_as')
         m.pop('from_file', None)
+        m.pop('enforce_scope_at_init', None)
         model_cases.append(m)
     from common import run_batch
     from world import enc_case, dec_answer, run_impl_many
